@@ -31,7 +31,12 @@ ASSUMPTIONS = [
     'PYTHONUTF8=1: files are opened as UTF-8 (the library opens paths with the default encoding)',
 ]
 SOURCES = ['str', 'path', 'textfile', 'binfile', 'stringio', 'bytesio', 'bytesio-utf16', 'binfile-utf16', 'bytesio-utf8sig']
-SINKS = ['filename', 'path', 'textfile', 'stringio']
+SINKS = ['filename', 'path', 'textfile', 'stringio',
+         # an open stream is written at its current position: text written before stays, nothing is added between
+         'stringio-after-header', 'textfile-after-header', 'textfile-append',
+         # text streams whose encoding is not UTF-8 (only when the text can be encoded that way)
+         'textfile-latin-1', 'textfile-cp1251', 'textfile-utf-16', 'textfile-gb18030']
+HEADER = '# written by the caller before dumping\n'
 
 
 def BOUNDS(tier):
@@ -237,6 +242,16 @@ def dump_variants(dump, dumpj):
     return out
 
 
+def sink_can_hold(sink, text):
+    for enc in ('latin-1', 'cp1251', 'utf-16', 'gb18030'):
+        if sink == 'textfile-' + enc:
+            try:
+                return text.encode(enc).decode(enc) == text
+            except UnicodeError:
+                return False
+    return True
+
+
 def write_to(fn, v, sink, name):
     d = tmpdir()
     p = os.path.join(d, name)
@@ -247,6 +262,27 @@ def write_to(fn, v, sink, name):
         s = io.StringIO()
         fn(v, s)
         return s.getvalue()
+    if sink == 'stringio-after-header':
+        s = io.StringIO()
+        s.write(HEADER)
+        fn(v, s)
+        got = s.getvalue()
+        return got[len(HEADER):] if got.startswith(HEADER) else 'HEADER LOST: ' + got
+    if sink in ('textfile-after-header', 'textfile-append'):
+        if sink == 'textfile-append':
+            with open(p, 'w', encoding='utf-8', newline='') as f:
+                f.write(HEADER)
+        with open(p, 'a' if sink == 'textfile-append' else 'w', encoding='utf-8', newline='') as f:
+            if sink == 'textfile-after-header':
+                f.write(HEADER)
+            fn(v, f)
+        got = open(p, 'rb').read().decode('utf-8')
+        return got[len(HEADER):] if got.startswith(HEADER) else 'HEADER LOST: ' + got
+    if sink.startswith('textfile-'):
+        enc = sink[len('textfile-'):]
+        with open(p, 'w', encoding=enc, newline='') as f:
+            fn(v, f)
+        return open(p, 'rb').read().decode(enc)
     if sink == 'filename':
         fn(v, p)
     elif sink == 'path':
@@ -287,6 +323,9 @@ def run_dump(unit, tier, res):
                 continue
             res.nontrivial += 1
             for sink in SINKS:
+                if not sink_can_hold(sink, want):
+                    res.hist['sink-encoding-cannot-hold-text'] += 1
+                    continue
                 res.transitions += 1
                 res.traces += 1
                 try:
@@ -335,6 +374,9 @@ def run_dump_strings(pos, tier, res):
             if not want.isascii() or '\n' in want[:-1]:
                 res.nontrivial += 1
             for sink in SINKS:
+                if not sink_can_hold(sink, want):
+                    res.hist['sink-encoding-cannot-hold-text'] += 1
+                    continue
                 res.transitions += 1
                 res.traces += 1
                 try:
